@@ -16,12 +16,20 @@ use std::sync::{mpsc, Arc, Condvar, Mutex};
 use std::time::Duration;
 
 fn search_once(pos: &Pos, hm: u64, depth: u8, threads: usize, ctx: Option<SearchContext>) -> (Value, Value, Option<SearchContext>, Option<i16>) {
+    search_once_reg(pos, hm, 0, depth, threads, ctx)
+}
+
+/// `registrations`: how often the root position is registered for repetition before the search
+fn search_once_reg(pos: &Pos, hm: u64, registrations: u32, depth: u8, threads: usize, ctx: Option<SearchContext>) -> (Value, Value, Option<SearchContext>, Option<i16>) {
     // run in a helper thread so that a hang is observed instead of hanging the harness
     let (tx, rx) = mpsc::channel();
     let p = pos.clone();
     std::thread::spawn(move || {
         let pool = rayon::ThreadPoolBuilder::new().num_threads(threads).build().unwrap();
         let mut board = p.setup_clocks(hm, 1);
+        for _ in 0..registrations {
+            board.count_current_position();
+        }
         let mut ctx = ctx.unwrap_or_else(|| SearchContext::new(depth));
         let r = guarded(|| {
             pool.install(|| {
@@ -40,7 +48,13 @@ fn search_once(pos: &Pos, hm: u64, depth: u8, threads: usize, ctx: Option<Search
     });
     match rx.recv_timeout(Duration::from_secs(300)) {
         Ok(x) => x,
-        Err(_) => (json!({"kind": "timeout"}), obs(&pos.setup_clocks(hm, 1)), None, None),
+        Err(_) => {
+            let mut b = pos.setup_clocks(hm, 1);
+            for _ in 0..registrations {
+                b.count_current_position();
+            }
+            (json!({"kind": "timeout"}), obs(&b), None, None)
+        }
     }
 }
 
@@ -57,9 +71,18 @@ pub fn basic(args: &[String]) {
     let mut hung = false;
     'outer: for (i, pv) in positions.iter().enumerate() {
         let pos = Pos::from_json(pv);
-        let board = pos.setup();
+        // histories matter too: every third root carries a half-move clock at / beyond the draw threshold,
+        // every fifth has been registered three times (a drawn game in which the search is still asked)
+        let hm: u64 = if i % 3 == 1 { [99u64, 100, 101, 150][(i / 3) % 4] } else { 0 };
+        let regs: u32 = if i % 5 == 2 { 3 } else { 0 };
+        let mut board = pos.setup_clocks(hm, 1);
         writeln!(file, "{}", json!({"ev": "Reset", "obs": obs(&board)})).unwrap();
         events += 1;
+        for _ in 0..regs {
+            let n = board.count_current_position();
+            writeln!(file, "{}", json!({"ev": "Count", "res": n as u64, "panic": "", "obs": obs(&board)})).unwrap();
+            events += 1;
+        }
         let men = pos.b.iter().filter(|&&x| x != 0).count() as u32;
         for &d in &depths {
             if d >= 3 && men > max_men_deep {
@@ -67,7 +90,7 @@ pub fn basic(args: &[String]) {
             }
             // rotate the pool sizes over the positions; every size is used with every depth
             let t = pools[(i + d as usize) % pools.len()];
-            let (res, o, _, _) = search_once(&pos, 0, d, t, None);
+            let (res, o, _, _) = search_once_reg(&pos, hm, regs, d, t, None);
             let timeout = res["kind"] == "timeout";
             writeln!(file, "{}", json!({"ev": "Search", "depth": d, "threads": t, "res": res, "obs": o})).unwrap();
             events += 1;
